@@ -44,25 +44,31 @@ Proof. now constructor. Qed.
 Lemma same_frame_trans a b c : same_frame a b -> same_frame b c -> same_frame a c.
 Proof. intros [] []. constructor; congruence. Qed.
 
-Lemma inst_for_write_spec q h l l1 :
-  inst_for_write q h l = Some l1 ->
-  has_inst h l1 = true /\
-  (forall x, has_inst x l = true -> has_inst x l1 = true) /\
-  (forall x, has_inst x l1 = true -> has_inst x l = true \/ x = h).
+Lemma inst_for_write_spec h l :
+  has_inst h (inst_for_write h l) = true /\
+  (forall x, has_inst x l = true -> has_inst x (inst_for_write h l) = true) /\
+  (forall x, has_inst x (inst_for_write h l) = true -> has_inst x l = true \/ x = h).
 Proof.
-  unfold inst_for_write. destruct (has_inst h l) eqn:Eh.
-  - intros [= <-]. auto.
-  - destruct (len_lt (zlen l) (q_max_instances q)); [|discriminate].
-    intros [= <-]. repeat split.
-    + rewrite has_inst_app. cbn [i_h]. rewrite Z.eqb_refl. apply orb_true_r.
-    + intros x Hx. rewrite has_inst_app, Hx. reflexivity.
-    + intros x Hx. rewrite has_inst_app in Hx. cbn [i_h] in Hx.
-      apply orb_true_iff in Hx. destruct Hx as [Hx|Hx]; [now left|right].
-      apply Z.eqb_eq in Hx. congruence.
+  unfold inst_for_write. destruct (has_inst h l) eqn:Eh; [auto|].
+  repeat split.
+  - rewrite has_inst_app. cbn [i_h]. rewrite Z.eqb_refl. apply orb_true_r.
+  - intros x Hx. rewrite has_inst_app, Hx. reflexivity.
+  - intros x Hx. rewrite has_inst_app in Hx. cbn [i_h] in Hx.
+    apply orb_true_iff in Hx. destruct Hx as [Hx|Hx]; [now left|right].
+    apply Z.eqb_eq in Hx. congruence.
 Qed.
 
 Lemma record_sample_h ts sn i : i_h (record_sample ts sn i) = i_h i.
 Proof. reflexivity. Qed.
+
+(* a refused write changes nothing at all *)
+Lemma ent_write_refused w h ts now slot w' c :
+  ent_write w h ts now slot = (w', c) -> c <> 0 -> w' = w /\ c = E_OUT_OF_RESOURCES.
+Proof.
+  unfold ent_write. destruct (inst_refused _ _ _); [intros [= <- <-]; auto|].
+  destruct (mspi_hit _ _ _); [intros [= <- <-]; auto|]. destruct (ms_hit _ _); [intros [= <- <-]; auto|].
+  destruct (expired _ _ _); intros [= <- <-] H; contradiction.
+Qed.
 
 Lemma ent_write_spec w h ts now slot w' c :
   ent_write w h ts now slot = (w', c) ->
@@ -73,16 +79,19 @@ Lemma ent_write_spec w h ts now slot w' c :
   (c = 0 -> has_inst h (w_insts w') = true).
 Proof.
   unfold ent_write. intros H.
-  destruct (inst_for_write (w_qos w) h (w_insts w)) as [l1|] eqn:E1.
-  - destruct (inst_for_write_spec _ _ _ _ E1) as (C & A & B).
-    destruct (mspi_hit (w_qos w) h l1);
-      [injection H as <- <-; wsimpl; repeat split; auto; intros; discriminate|].
-    destruct (ms_hit (w_qos w) l1);
-      [injection H as <- <-; wsimpl; repeat split; auto; intros; discriminate|].
-    destruct (expired (w_qos w) ts now); injection H as <- <-; wsimpl; (repeat split; auto);
-      try (intros x; rewrite has_inst_upd by apply record_sample_h; auto);
-      try (intros _; rewrite has_inst_upd by apply record_sample_h; auto).
-  - injection H as <- <-. repeat split; auto. intros; discriminate.
+  assert (R : forall P : Prop, (w', c) = (w, E_OUT_OF_RESOURCES) -> (
+    same_frame w w' /\ w_pending w' = w_pending w /\ (c = 0 \/ c = E_OUT_OF_RESOURCES) /\
+    (forall x, has_inst x (w_insts w) = true -> has_inst x (w_insts w') = true) /\
+    (forall x, has_inst x (w_insts w') = true -> has_inst x (w_insts w) = true \/ x = h) /\
+    (c = 0 -> has_inst h (w_insts w') = true))).
+  { intros _ [= -> ->]. repeat split; auto. intros; discriminate. }
+  destruct (inst_refused _ _ _); [apply (R True); now symmetry|].
+  destruct (mspi_hit _ _ _); [apply (R True); now symmetry|].
+  destruct (ms_hit _ _); [apply (R True); now symmetry|].
+  destruct (inst_for_write_spec h (w_insts w)) as (C & A & B).
+  destruct (expired (w_qos w) ts now); injection H as <- <-; wsimpl; (repeat split; auto);
+    try (intros x; rewrite has_inst_upd by apply record_sample_h; auto);
+    try (intros _; rewrite has_inst_upd by apply record_sample_h; auto).
 Qed.
 
 (* ---------------------------------------------------------------- pop_front *)
